@@ -39,11 +39,21 @@ def mv(gen, ty_str, v):
     return 'dv::mv::<%s>(%s)' % (ty_str, json.dumps(json.dumps(v, separators=(",", ":"))))
 
 
+def spelling(f):
+    """How an Option field is written.  The specification's "Option" (the macro recognises it) is rendered in one of three
+    equivalent ways, chosen by the field itself: Option<T>, (Option<T>), or through a macro_rules `$t:ty` fragment."""
+    sp = f.get("sp", "Option")
+    if sp == "Option":
+        h = int(hashlib.sha1(json.dumps(f, sort_keys=True).encode()).hexdigest()[:4], 16) % 4
+        return {1: "paren", 2: "tmpl"}.get(h, "Option")
+    return sp
+
+
 def field_type(gen, f):
     t = f["t"]
     if t["k"] == "opt":
         inner = gen.rust_type(t["e"])
-        sp = f.get("sp", "Option")
+        sp = spelling(f)
         if sp == "std":
             return "std::option::Option<%s>" % inner
         if sp == "core":
@@ -116,7 +126,7 @@ def hashable_fields(fields):
 def render_struct(gen, name, ty):
     fields = ty["fields"]
     # fields spelled "tmpl" get their type through a `$t:ty` fragment of a macro_rules template
-    tmpl = [f for f in fields if f["t"]["k"] == "opt" and f.get("sp") == "tmpl"]
+    tmpl = [f for f in fields if f["t"]["k"] == "opt" and spelling(f) == "tmpl"]
     gen.tmpl_idx = {id(f): i for i, f in enumerate(tmpl)}
     # (records of plain fields can be elements of hash containers)
     src = ["#[derive(desert_macro::BinaryCodec, PartialEq, Eq, Hash)]" if hashable_fields(fields) else "#[derive(desert_macro::BinaryCodec)]"]
